@@ -216,8 +216,11 @@ pub fn build_skeleton_file(c: &SkelCase) -> Vec<u8> {
     let variant_t = add(build_type("hkRootLevelContainerNamedVariant", 0, vec![md("name", T_STRING, None), md("className", T_STRING, None), md("variant", T_OBJECT, Some("hkReferencedObject"))], c, 253), &mut types);
     let _ = variant_t;
     let root_t = add(build_type("hkRootLevelContainer", 0, vec![md("namedVariants", ARRAY | T_STRUCT, Some("hkRootLevelContainerNamedVariant"))], c, 1), &mut types);
+    // every third skeleton class sits two levels below hkReferencedObject: an intermediate class with a member of its
+    // own, so that members are inherited from an ancestor that is not the direct parent
+    let skeleton_parent = if c.ids[2] % 3 == 0 { add(build_type("hkaSkeletonBase", referenced, vec![md("baseFlags", T_INT, None)], c, 254), &mut types) } else { referenced };
     let skeleton_t = add(
-        build_type("hkaSkeleton", referenced, vec![md("name", T_STRING, None), md("parentIndices", ARRAY | T_INT, None), md("bones", ARRAY | T_STRUCT, Some("hkaBone")), md("referencePose", ARRAY | T_VEC12, None), md("referenceFloats", ARRAY | T_REAL, None), md("floatSlots", ARRAY | T_STRING, None)], c, 2),
+        build_type("hkaSkeleton", skeleton_parent, vec![md("name", T_STRING, None), md("parentIndices", ARRAY | T_INT, None), md("bones", ARRAY | T_STRUCT, Some("hkaBone")), md("referencePose", ARRAY | T_VEC12, None), md("referenceFloats", ARRAY | T_REAL, None), md("floatSlots", ARRAY | T_STRING, None)], c, 2),
         &mut types,
     );
     let container_t = add(build_type("hkaAnimationContainer", referenced, vec![md("skeletons", ARRAY | T_OBJECT, Some("hkaSkeleton")), md("animations", ARRAY | T_OBJECT, Some("hkaAnimation")), md("bindings", ARRAY | T_OBJECT, Some("hkaAnimationBinding")), md("attachments", ARRAY | T_OBJECT, Some("hkaBoneAttachment")), md("skins", ARRAY | T_OBJECT, Some("hkaMeshBinding"))], c, 3), &mut types);
@@ -331,6 +334,7 @@ pub fn build_skeleton_file(c: &SkelCase) -> Vec<u8> {
         let bone_parent_members = if c.bone_parent_type { 1 } else { 0 };
         write_object(&mut w, skeleton_t, &mut |w, name| match name {
             "memSizeAndFlags" => w.packed(1 << 20),
+            "baseFlags" => w.packed(-70000),
             "name" => w.string(&c.skeleton_name),
             "parentIndices" => {
                 w.packed(bones.len() as i32);
@@ -427,6 +431,9 @@ fn prop_skeleton(c: &SkelCase, ctx: &Ctx) -> PResult {
         }
     }
     ctx.classf(format!("sklb:container-version:{}", c.container_version));
+    if c.ids[2] % 3 == 0 {
+        ctx.class("sklb:members-inherited-over-two-levels");
+    }
     if far_payload(c) {
         ctx.class("sklb:payload-beyond-64KiB");
     }
@@ -811,7 +818,7 @@ pub fn property() -> Property {
     Property {
         id: "C16",
         rule: "skeletons: three container versions with the Havok payload at a random offset (every 16th 32-bit-offset container: beyond 64 KiB); tag file written by the harness: file info, generated type table (the needed classes with their members in random positions among extra members of every scalar / array / tuple kind, parent types, unused extra types), root container with several named variants (the animation container at a random position), animation container, 1..2 skeletons (the first is asserted), 1..40 bones with forest hierarchy (-1 roots), names up to 130 bytes, 12-float poses with arbitrary bit patterns, string back-references on / off, non-minimal packed integers. pbd: 1..12 body ids, parent links forming a forest, child / sibling links, item and link tables independently permuted, 0..6 bones each with out-of-line names and 4x3 matrices; queries over all ordered pairs (asserted when the start node has a sibling link and the target is a proper ancestor; same id -> None). cmp: 0x2a800 prefix + 0..40 rows of 14 floats (+ partial trailing row). tera: arbitrary plate size on read (position = plate_size * (x + 0.5), relative tolerance 1e-6; file names NNNN.mdl), 128-grid positions on write decoded by an own reader and parsed back. lgb: empty layer groups with any ids and ASCII name: own encoding -> parse, library write = own encoding byte for byte (incl. the checked-in empty_planlive.lgb), write -> read. Non-trivial: skeleton with >= 3 bones and >= 1 extra member or type; pbd with an asserted query and a chain of length >= 2; >= 2 rows / plates; non-empty name. Distinct by hash of the file.",
-        assumptions: &["tag-file members the reader has no default for (REAL / STRING scalars, vector arrays) are always present; tuple members always absent; struct element types have at most one parent level with members", "pbd queries whose start node has no sibling link, or whose target is not an ancestor, are not asserted"],
+        assumptions: &["tag-file members the reader has no default for (REAL / STRING scalars, vector arrays) are always present; tuple members always absent; struct element types have at most one parent level with members (object classes: up to two)", "pbd queries whose start node has no sibling link, or whose target is not an ancestor, are not asserted"],
         pre: Some(pre),
         post: None,
         parts: vec![
